@@ -51,6 +51,8 @@ def shrink(ctx, s, pred):
 
 
 def run(ctx):
+    from checks import isolate
+    isolate.enter(ctx)
     ok, problems = core.coq_audit(ctx, PROPS, THEOREMS)
     n_valid, n_mal = (600, 2400) if ctx.quick else (6000, 30000)
     cases = parsegen.gen_cases(ctx.rng, n_valid, n_mal)
@@ -105,6 +107,8 @@ def run(ctx):
 
 
 def replay(ctx, path):
+    from checks import isolate
+    isolate.enter(ctx)
     obj = json.load(open(path))
     s = obj.get("failing_input") or (obj.get("first_disagreeing_input") or {}).get("input")
     print(json.dumps(obj, indent=1, ensure_ascii=False))
